@@ -375,6 +375,9 @@ def work(task):
             ('same-statements', 't(0); t(0); t(0)', ('seq', [P(0), P(0), P(0)])), ('same-if-nested', '(t(0) if t(0) else t(1)) if (t(0) if t(0) else t(1)) else t(2)',
                                                                                      ('if', ('if', P(0), P(0), P(1)), ('if', P(0), P(0), P(1)), P(2))),
             ('same-pipe', 't(0) | f(t(0)) | f(t(0))', ('seq', [P(0), P(0), P(0)])), ('same-slice', 'x[t(0):t(0)]', ('seq', [P(0), P(0)])),
+            ('in-list-literal', 't(0) in [t(1), t(2), t(3)]', ('seq', [P(0), P(1), P(2), P(3)])), ('not-in-list-literal', 't(0) not in [t(1), t(2), t(3)]', ('seq', [P(0), P(1), P(2), P(3)])),
+            ('in-dict-literal', 't(0) in {t(1): t(2), t(3): t(4)}', ('seq', [P(0), P(1), P(2), P(3), P(4)])), ('eq-list-literal', 't(0) == [t(1), t(2)]', ('seq', [P(0), P(1), P(2)])),
+            ('in-list-const-first', '1 in [1, t(0), t(1)]', ('seq', [P(0), P(1)])), ('in-str-list', '"a" in ["a", t(0)]', ('seq', [P(0)])), ('list-in-list', '[t(0)] in [[t(1)], [t(2)]]', ('seq', [P(0), P(1), P(2)])),
             ('same-minus', 't(0) - t(0)', ('seq', [P(0), P(0)])), ('same-in', 't(0) in t(0)', ('seq', [P(0), P(0)])),
         ]
         # an operation that fails (ill-typed literal operands, undefined names, a full list): nothing to its right is evaluated
